@@ -1445,6 +1445,61 @@ fn parse_mapping(mapping: &Mapping) -> crate::Result<Expression> {
                         }
                     }
                 }
+                // NOTE: all() and of() count members, and a batch can only be counted per member
+                // when it is the only one, otherwise every member must be its own expression.
+                if let Expression::Match(_, _) = &e {
+                    let batches = [
+                        !needles.is_empty(),
+                        !ineedles.is_empty(),
+                        !regex_set.is_empty(),
+                        !iregex_set.is_empty(),
+                        !group.is_empty() || !rest.is_empty(),
+                    ];
+                    if batches.iter().filter(|b| **b).count() > 1 {
+                        needles.clear();
+                        for c in context.drain(..) {
+                            let s = match c {
+                                MatchType::Contains(c) => Search::Contains(c),
+                                MatchType::EndsWith(c) => Search::EndsWith(c),
+                                MatchType::Exact(c) => Search::Exact(c),
+                                MatchType::StartsWith(c) => Search::StartsWith(c),
+                            };
+                            group.push(Expression::Search(s, f.to_owned(), cast));
+                        }
+                        ineedles.clear();
+                        for c in icontext.drain(..) {
+                            group.push(Expression::Search(
+                                Search::AhoCorasick(
+                                    Box::new(
+                                        AhoCorasickBuilder::new()
+                                            .ascii_case_insensitive(true)
+                                            .kind(Some(AhoCorasickKind::DFA))
+                                            .build(vec![c.value().clone()])
+                                            .expect("failed to build dfa"),
+                                    ),
+                                    vec![c],
+                                    true,
+                                ),
+                                f.to_owned(),
+                                cast,
+                            ));
+                        }
+                        for r in regex_set.drain(..) {
+                            group.push(Expression::Search(
+                                Search::Regex(r, false),
+                                f.to_owned(),
+                                cast,
+                            ));
+                        }
+                        for r in iregex_set.drain(..) {
+                            group.push(Expression::Search(
+                                Search::Regex(r, true),
+                                f.to_owned(),
+                                cast,
+                            ));
+                        }
+                    }
+                }
                 if !needles.is_empty() {
                     if needles.len() == 1 {
                         let s = match context.into_iter().next().expect("failed to get context") {
